@@ -1,7 +1,7 @@
 (* Props/C17.v — the property theorems for C17 (indexed FASTA random access).
    Only statements, `exact <lemma>` and Print Assumptions live here. *)
 From Coq Require Import ZArith List Bool String.
-From BNP Require Import Base.Prims Model.C17 Proofs.C17.
+From BNP Require Import Base.Prims Model.C17 Proofs.C17 Gen.C17 Bridge.C17.
 Import ListNotations.
 Open Scope Z_scope.
 
@@ -50,6 +50,33 @@ Theorem C17_contig_length_pinned_refuted :
   exists ix, contig_length_pinned ix <> i_rlen ix.
 Proof. exists {| i_name := []; i_rlen := 12; i_offset := 11; i_lenc := 5; i_lenb := 6 |}. discriminate. Qed.
 Print Assumptions C17_contig_length_pinned_refuted.
+
+(* Source tie: the offset arithmetic regenerated from /repo/bionumpy/io/indexed_fasta.py on this run (Gen/C17.v,
+   written by translate/run.py) is the arithmetic the theorems above are about — for __getitem__, for both
+   interval readers, and for the column get_contig_lengths reports. *)
+Theorem C17_source_tie :
+  (forall rlen offset lenc lenb, gen_getitem_n_rows rlen offset lenc lenb = m_n_rows rlen lenc
+                              /\ gen_getitem_bytes_to_read rlen offset lenc lenb = m_bytes_to_read rlen lenc lenb
+                              /\ gen_getitem_seek rlen offset lenc lenb = offset)
+  /\ (forall rlen offset lenc lenb a b j,
+        gen_slow_seek rlen offset lenc lenb a b = m_read_start offset lenc lenb a
+        /\ gen_slow_read_len rlen offset lenc lenb a b = m_read_len lenc lenb a b
+        /\ gen_slow_n_del rlen offset lenc lenb a b = m_n_del lenc a b
+        /\ gen_slow_del_index rlen offset lenc lenb a b j = m_del_index lenb (a mod lenc) j
+        /\ gen_fast_read_start rlen offset lenc lenb a b = m_read_start offset lenc lenb a
+        /\ gen_fast_read_len rlen offset lenc lenb a b = m_read_len lenc lenb a b
+        /\ gen_fast_n_del rlen offset lenc lenb a b = m_n_del lenc a b
+        /\ gen_fast_start_mod rlen offset lenc lenb a b = a mod lenc
+        /\ gen_fast_del_index lenb (a mod lenc) j = m_del_index lenb (a mod lenc) j)
+  /\ gen_contig_length_column = contig_length_column.
+Proof.
+  exact (conj (fun r o c b => conj (b_getitem_n_rows r o c b) (conj (b_getitem_bytes_to_read r o c b) (b_getitem_seek r o c b)))
+        (conj (fun r o c b x y j => conj (b_slow_seek r o c b x y) (conj (b_slow_read_len r o c b x y) (conj (b_slow_n_del r o c b x y)
+               (conj (b_slow_del_index r o c b x y j) (conj (b_fast_read_start r o c b x y) (conj (b_fast_read_len r o c b x y)
+               (conj (b_fast_n_del r o c b x y) (conj (b_fast_start_mod r o c b x y) (b_fast_del_index b (x mod c) j)))))))))
+              b_contig_length_column)).
+Qed.
+Print Assumptions C17_source_tie.
 
 (* non-vacuity: a concrete three-line record in the middle of a file meets the hypotheses, and the
    executable model really returns the substring across two line breaks *)
